@@ -407,6 +407,11 @@ fn handle(line: &str) -> Option<String> {
                 ),
                 "startswith" => format!("ok {}", Utf8Path::new(&a).starts_with(&b) as u8),
                 "ncomp" => format!("ok {}", Utf8Path::new(&a).components().count()),
+                "stripprefix" => match Utf8Path::new(&a).strip_prefix(&b) {
+                    Ok(rest) => format!("ok +{}", hex(rest.as_str())),
+                    Err(_) => "ok -".to_string(),
+                },
+                "patheq" => format!("ok {}", (Utf8Path::new(&a) == Utf8Path::new(&b)) as u8),
                 "sort" => {
                     let mut v: Vec<&Utf8Path> = args.iter().map(|x| Utf8Path::new(x)).collect();
                     v.sort();
